@@ -893,6 +893,9 @@ impl AsyncBufRead for ScriptedLocal {
                     return Poll::Ready(Ok(&[]));
                 }
                 Some(LR::Err) => {
+                    // reported ONCE, like a socket reports a reset once: what a later poll sees is the next script element
+                    // (end-of-stream, another error, or nothing = pending for ever)
+                    me.ri += 1;
                     me.log.app(AppEv::LocalErr { stream: me.stream, op: "read".into(), kind: "ConnectionAborted".into() });
                     return Poll::Ready(Err(Self::io_err("scripted read error")));
                 }
@@ -934,6 +937,7 @@ impl AsyncWrite for ScriptedLocal {
                 }
             }
             Some(LW::Err) => {
+                me.wi += 1; // reported once; a later call sees the next script element (or accepts everything)
                 me.log.app(AppEv::LocalErr { stream: me.stream, op: "write".into(), kind: "ConnectionAborted".into() });
                 return Poll::Ready(Err(Self::io_err("scripted write error")));
             }
